@@ -12,7 +12,7 @@ CONSTANTS
   PreNames <- PreNamesMC
   PreSize = 2
   ForeignNames <- ForeignQ
-  MaxForeign = 1
+  MaxForeign = 0
   OptSet <- AllOpts
 CONSTRAINT RevBound
 INVARIANTS TypeOK DurSane FinOnlyAfterDurable NothingOwedIsMissing FinqIsDurable Custody SyncOnOpenFile
